@@ -1012,7 +1012,8 @@ end
 def collectFn (rt : RT) (f : AFn) : RT :=
   collectA (collectType (collectTypes rt (f.params.map (·.2))) f.ret) f.body
 
-def collectRuntimeTypes (file : AFile) : RT := file.foldl collectFn {}
+/-- the part of `collect_runtime_types` that walks the functions -/
+def collectFnsTypes (file : AFile) : RT := file.foldl collectFn {}
 
 /-! ## `collect_dyn_requirements`, `gen_dyn_type_definitions`, `gen_dyn_helper_fns` -/
 
@@ -1189,6 +1190,20 @@ def okTypeDefinition (env : Env) : Bool :=
     strContains d.name "TParam" || d.variants.any (fun v => v.2.any isParamTy) ||
       d.variants.all fun v => okTys v.2)
 
+/-- `struct_def_is_emitted` / `enum_def_is_emitted`: the definitions `gen_type_definition` emits -/
+def structEmitted (d : StructDef) : Bool :=
+  !(strContains d.name "TParam" || !d.generics.isEmpty || d.fields.any (fun f => isParamTy f.2))
+def enumEmitted (d : EnumDef) : Bool :=
+  !(strContains d.name "TParam" || d.variants.any (fun v => v.2.any isParamTy))
+
+/-- `collect_runtime_types`: the functions first, then the field types of every emitted struct and the payload
+    types of every emitted enum (a tuple / Ref / array type that occurs only inside a type definition still needs
+    its runtime declaration) -/
+def collectRuntimeTypes (env : Env) (file : AFile) : RT :=
+  let rt := collectFnsTypes file
+  let rt := env.structs.foldl (fun rt d => if structEmitted d then collectTypes rt (d.fields.map (·.2)) else rt) rt
+  env.enums.foldl (fun rt d => if enumEmitted d then d.variants.foldl (fun rt v => collectTypes rt v.2) rt else rt) rt
+
 /-! ## `go_file` -/
 
 /-- the import specs added for `extern "go"` functions and types: package paths not imported yet,
@@ -1222,7 +1237,7 @@ def tupleStructs : List Ty → List GItem
 /-- everything `go_file` builds before it calls `eliminate_dead_vars`; the second component is the
     `Gensym` counter afterwards and the "no panic" flag -/
 def goFilePreSt (env : Env) (file : AFile) (n : Nat) : GFile × St :=
-  let rt := collectRuntimeTypes file
+  let rt := collectRuntimeTypes env file
   let base := makeRuntime ++ arrayRuntime rt.arrays ++ refRuntime rt.refs
   let withImports :=
     if env.externFns.isEmpty && env.externTys.isEmpty then base
